@@ -1111,6 +1111,8 @@ class MarkovChainMonteCarloMethod:
                         adapters=stage.adapters,
                         **common_kwargs,
                     )
+                    if isinstance(exception, KeyboardInterrupt):
+                        return MCMCSampleChainsOutputs(chain_states, traces, stats)
                     if len(adapter_states) > 0:
                         _finalize_adapters(
                             adapter_states,
@@ -1121,8 +1123,6 @@ class MarkovChainMonteCarloMethod:
                         )
                     if stage.trace_funcs is not None or stage.record_stats:
                         sampling_index_offset += stage.n_iter
-                    if isinstance(exception, KeyboardInterrupt):
-                        return MCMCSampleChainsOutputs(chain_states, traces, stats)
         return MCMCSampleChainsOutputs(chain_states, traces, stats)
 
 
